@@ -169,7 +169,7 @@ CLAIMS['C17'] = dict(
           "pairs (T written, U read) x values vs the model; single-bit corruptions of the embedded schema; thousands "
           "of generated containers round-tripped through the real to_vec/from_slice (equal container, identical "
           "bytes). Partial: the round-trip theorem assumes the type's own container is a well-typed wire value "
-          "(decidable per type; UTF-8 names, ascending definitions) and keysOk."),
+          "(decidable per type; UTF-8 names, ascending definitions) and keysOk. C17_foreign_rejected (what try_to_vec_with_schema::<T> wrote is never accepted at a type U whose schema differs, both modes), C17_container_roundtrip (every well-typed container, hostile ones included, reads back as the same container with nothing left), C17_container_canonical (definitions of every generated container - derived items with the derive's shortcut included - are in strictly ascending name order; pres_all by induction over the universe), C17_definitions_only_added."),
     technique="Lean 4 proof (acceptance implies schema equality) + differential check over type pairs and generated containers",
     design_ref="§5 C17")
 
